@@ -12,10 +12,25 @@ variable {P : ParserModel}
     the parser handed to the tee callback. -/
 def PhaseInv (req : Req) : Phase P → Prop
   | .awaitStatus u rest => ∃ pre, req.urls = pre ++ u :: rest
-  | .streaming u rest temp ps rx =>
+  | .streaming u rest temp nl ps rx =>
     (∃ pre, req.urls = pre ++ u :: rest) ∧
-    ∃ cb, P.runRev rx = some (ps, cb) ∧ ∀ t, temp = some t → t = cb
+    ∃ cb, P.runRev rx = some (ps, cb) ∧ (∀ t, temp = some t → t = cb) ∧ nl = updNl false cb
   | _ => True
+
+theorem updNl_append (nl : Bool) (a b : Bytes) : updNl (updNl nl a) b = updNl nl (a ++ b) := by
+  unfold updNl
+  rw [List.getLast?_append]
+  cases b.getLast? <;> cases a.getLast? <;> simp
+
+theorem updNl_endsNl {cb : Bytes} (h : updNl false cb = true) : EndsNl cb := by
+  unfold updNl at h
+  cases hl : cb.getLast? with
+  | none => simp [hl] at h
+  | some x =>
+    simp [hl] at h
+    subst h
+    obtain ⟨ys, hys⟩ := List.getLast?_eq_some_iff.mp hl
+    exact ⟨ys, hys⟩
 
 theorem nextUrl_inv (req : Req) (rest : List Url) (h : ∃ pre, req.urls = pre ++ rest) :
     PhaseInv (P := P) req (nextUrl rest) := by
@@ -84,26 +99,27 @@ theorem step_inv (c : Cache) (req : Req) (ph : Phase P) (e : Ev) (h : PhaseInv r
       cases isErrorStatus code with
       | true => exact nextUrl_inv req rest (suffix_tail hpre)
       | false =>
-        refine ⟨⟨pre, hpre⟩, [], rfl, ?_⟩
+        refine ⟨⟨pre, hpre⟩, [], rfl, ?_, rfl⟩
         intro t ht
         cases createOk <;> simp at ht
         exact ht
-  | streaming u rest temp ps rx =>
-    obtain ⟨⟨pre, hpre⟩, cb, hrun, htemp⟩ := h
+  | streaming u rest temp nl ps rx =>
+    obtain ⟨⟨pre, hpre⟩, cb, hrun, htemp, hnl⟩ := h
     cases e with
-    | lookup => exact ⟨⟨pre, hpre⟩, cb, hrun, htemp⟩
-    | status _ _ => exact ⟨⟨pre, hpre⟩, cb, hrun, htemp⟩
+    | lookup => exact ⟨⟨pre, hpre⟩, cb, hrun, htemp, hnl⟩
+    | status _ _ => exact ⟨⟨pre, hpre⟩, cb, hrun, htemp, hnl⟩
     | chunk b w =>
       simp only [step]
       cases hf : P.feed ps b with
       | none => exact nextUrl_inv req rest (suffix_tail hpre)
       | some r =>
         obtain ⟨ps', cb'⟩ := r
-        refine ⟨⟨pre, hpre⟩, cb ++ cb', ?_, ?_⟩
+        refine ⟨⟨pre, hpre⟩, cb ++ cb', ?_, ?_, ?_⟩
         · simp [ParserModel.runRev, hrun, hf]
         · intro t ht
           obtain ⟨t0, h0, rfl⟩ := tee_some ht
           rw [htemp t0 h0]
+        · rw [hnl, updNl_append]
     | eof io =>
       simp only [step]
       cases hf : P.finish ps with
@@ -111,7 +127,9 @@ theorem step_inv (c : Cache) (req : Req) (ph : Phase P) (e : Ev) (h : PhaseInv r
       | some r =>
         obtain ⟨fin, t⟩ := r
         simp only []
-        split <;> simp [PhaseInv]
+        cases tee temp fin io.writeOk with
+        | none => trivial
+        | some tt => simp only []; split <;> trivial
     | netError => exact nextUrl_inv req rest (suffix_tail hpre)
     | drop => simp [step, PhaseInv]
   | done r => rw [step_done]; exact h
@@ -126,13 +144,14 @@ theorem runTask_inv (c : Cache) (req : Req) (ph : Phase P) (es : List Ev) (h : P
 /-- **the only step that touches the cache.** Either the cache is literally unchanged, or the call
     was streaming the response of `u` with chunks `rx`, the event is end-of-response, the streaming
     parse of exactly these chunks returned `Ok(t)`, the temp file holds the whole body, the result
-    is `downloaded rx u`, and the cache becomes `commit … (whole body) …`. -/
+    ends in a line feed, the result is `downloaded rx u`, and the cache becomes
+    `commit … (whole body) …`. -/
 theorem step_cache (hl : ParserLaws P) (c : Cache) (req : Req) (ph : Phase P) (e : Ev)
     (h : PhaseInv req ph) :
     (step c req ph e).1 = c ∨
-    ∃ u rest temp ps rx io t,
-      ph = .streaming u rest temp ps rx ∧ e = .eof io ∧ u ∈ req.urls ∧
-      P.stream rx = some (bodyOf rx, t) ∧
+    ∃ u rest temp nl ps rx io t,
+      ph = .streaming u rest temp nl ps rx ∧ e = .eof io ∧ u ∈ req.urls ∧
+      P.stream rx = some (bodyOf rx, t) ∧ EndsNl (bodyOf rx) ∧
       (step c req ph e).2 = .done (.downloaded rx u) ∧
       (step c req ph e).1 = commit c req.path u (bodyOf rx) io := by
   cases ph with
@@ -154,8 +173,8 @@ theorem step_cache (hl : ParserLaws P) (c : Cache) (req : Req) (ph : Phase P) (e
     | chunk _ _ => rfl
     | eof _ => rfl
     | netError => rfl
-  | streaming u rest temp ps rx =>
-    obtain ⟨⟨pre, hpre⟩, cb, hrun, htemp⟩ := h
+  | streaming u rest temp nl ps rx =>
+    obtain ⟨⟨pre, hpre⟩, cb, hrun, htemp, hnl⟩ := h
     cases e with
     | lookup => left; rfl
     | status _ _ => left; rfl
@@ -177,14 +196,24 @@ theorem step_cache (hl : ParserLaws P) (c : Cache) (req : Req) (ph : Phase P) (e
         cases ht : tee temp fin io.writeOk with
         | none => left; rfl
         | some tt =>
-          right
-          obtain ⟨t0, h0, rfl⟩ := tee_some ht
-          have hcb : t0 = cb := htemp t0 h0
-          have hbody : cb ++ fin = bodyOf rx := (hl.callback_prefix rx ps cb hrun).2 fin t hf
-          refine ⟨u, rest, temp, ps, rx, io, t, rfl, rfl, ?_, ?_, rfl, ?_⟩
-          · simp [hpre]
-          · simp [ParserModel.stream, hrun, hf, hbody]
-          · simp [hcb, hbody]
+          simp only []
+          cases hn : updNl nl fin with
+          | false => left; rfl
+          | true =>
+            right
+            obtain ⟨t0, h0, rfl⟩ := tee_some ht
+            have hcb : t0 = cb := htemp t0 h0
+            have hbody : cb ++ fin = bodyOf rx := (hl.callback_prefix rx ps cb hrun).2 fin t hf
+            have hends : EndsNl (bodyOf rx) := by
+              rw [← hbody]
+              apply updNl_endsNl
+              rw [← updNl_append, ← hnl]
+              exact hn
+            refine ⟨u, rest, temp, nl, ps, rx, io, t, rfl, rfl, ?_, ?_, hends, ?_, ?_⟩
+            · simp [hpre]
+            · simp [ParserModel.stream, hrun, hf, hbody]
+            · simp
+            · simp [hcb, hbody]
   | done r => left; rw [step_done]
   | dropped => left; rw [step_dropped]
 
@@ -220,8 +249,8 @@ theorem step_downloaded (hl : ParserLaws P) (c : Cache) (req : Req) (ph : Phase 
     | drop => simp [step] at hd
     | chunk _ _ => simp [step] at hd
     | eof _ => simp [step] at hd
-  | streaming u' rest temp ps rx' =>
-    obtain ⟨⟨pre, hpre⟩, cb, hrun, htemp⟩ := h
+  | streaming u' rest temp nl ps rx' =>
+    obtain ⟨⟨pre, hpre⟩, cb, hrun, htemp, hnl⟩ := h
     cases e with
     | lookup => simp [step] at hd
     | status _ _ => simp [step] at hd
@@ -242,7 +271,9 @@ theorem step_downloaded (hl : ParserLaws P) (c : Cache) (req : Req) (ph : Phase 
         have hbody : cb ++ fin = bodyOf rx' := (hl.callback_prefix rx' ps cb hrun).2 fin t hf
         have : rx' = rx ∧ u' = u := by
           simp only [] at hd
-          split at hd <;> simpa using hd
+          split at hd
+          · simpa using hd
+          · split at hd <;> simpa using hd
         obtain ⟨rfl, rfl⟩ := this
         right
         refine ⟨by simp [hpre], t, ?_⟩
